@@ -246,7 +246,8 @@ def model_join(case, results):
 
 def build(cfg):
     from amaranth_soc import wishbone
-    feats = lambda f: {FE[k] for k in range(6) if f[k]}
+    from ..common import spell_features
+    feats = lambda f: spell_features([FE[k] for k in range(6) if f[k]], sum((k + 2) * b for k, b in enumerate(f)) + cfg["aw"])
     arb = wishbone.Arbiter(addr_width=cfg["aw"], data_width=cfg["dw"], granularity=cfg["g"],
                            features=feats(cfg["feat"]))
     intrs = []
@@ -304,6 +305,7 @@ def run_impl(case):
         from amaranth.hdl import Elaboratable
 
         class Elaborated(Elaboratable):
+            verif_elaborate_once = True
             """The arbiter's own, already elaborated fragment: sim.simulate puts its ResetInserter around the very
             design whose `grant` register (a local of elaborate()) was found above; nothing is elaborated twice."""
             def elaborate(self, platform):
